@@ -27,6 +27,7 @@ type Server struct {
 	conn map[net.Conn]struct{}
 
 	Gets, Hits, Sets, SetsRefusedNX atomic.Int64
+	SetDelayMs                      atomic.Int64 // every SET is answered this many milliseconds late (a busy redis)
 }
 
 func Start() (*Server, error) {
@@ -178,6 +179,9 @@ func (s *Server) handle(c net.Conn) {
 						i++
 					}
 				}
+			}
+			if d := s.SetDelayMs.Load(); d > 0 {
+				time.Sleep(time.Duration(d) * time.Millisecond)
 			}
 			s.mu.Lock()
 			old, exists := s.data[args[1]]
